@@ -21,6 +21,7 @@
 #include "vcommon.h"
 #include <xmp.h>
 #include "common.h"   /* /repo/src/common.h (private) via -I */
+#include "rng.h"
 
 #define MAXFRAMES 4096
 
@@ -293,6 +294,9 @@ static int run_case(const char *path, uint64_t seed, long maxhex)
 
 	a = xmp_create_context();
 	b = xmp_create_context();
+	/* C06: determinism is claimed with the context's random state fixed */
+	libxmp_set_random(&((struct context_data *)a)->rng, 0x1234567u);
+	libxmp_set_random(&((struct context_data *)b)->rng, 0x1234567u);
 	if (xmp_load_module(a, path) < 0 || xmp_load_module(b, path) < 0) {
 		xmp_free_context(a);
 		xmp_free_context(b);
@@ -307,6 +311,10 @@ static int run_case(const char *path, uint64_t seed, long maxhex)
 			xmp_end_player(a);
 			xmp_end_player(b);
 		}
+		/* the two contexts rendered different numbers of frames in the previous
+		 * session: re-pin the random state (C06 fixes it) before each session */
+		libxmp_set_random(&((struct context_data *)a)->rng, 0x1234567u + sidx);
+		libxmp_set_random(&((struct context_data *)b)->rng, 0x1234567u + sidx);
 		if (xmp_start_player(a, rate, fmt) < 0 || xmp_start_player(b, rate, fmt) < 0)
 			break;
 		fails += run_session(a, b, path, rate, fmt, loop, near_end, ops, -1, maxhex, seed, sidx);
